@@ -112,6 +112,9 @@ def run(ctx):
                     and isinstance(st_.value, ast.Tuple):
                 for a, b in zip(st_.targets[0].elts, st_.value.elts):
                     srcs[dotted(a)] = dotted(b)
+            elif isinstance(st_, ast.Assign) and len(st_.targets) == 1 \
+                    and isinstance(st_.targets[0], ast.Name) and dotted(st_.value):
+                srcs.setdefault(st_.targets[0].id, dotted(st_.value))
         for r in ast.walk(w.node):
             if isinstance(r, ast.Raise) and isinstance(r.exc, ast.Call):
                 cn = dotted(r.exc.func)
